@@ -26,6 +26,26 @@ CHECKS = {
          'every inbound packet; oracle: results and host packet log identical to the unfragmented run, no request past the current packet, '
          'InvalidChecksumError / InvalidCommandError from the call that read the bad packet.',
          'trusts adbsim and its frame boundaries; virtual clock frozen so only fragmentation varies', '4/C03'),
+ 'C02': ('exploration', 'exhaustive product enumeration of pack() inputs decoded by an independent parser; strict parsing of whole-session host streams',
+         '7 commands x 45^2 boundary argument values x payload shapes (every single byte value, runs around 256, up to 1 MiB / 17 MiB whose byte sum exceeds 2^32; bytes and '
+         'bytearray) are packed by the library and decoded by an independent codec and by unpack(); whole sessions (all operations, auth, failing transfers, id counter at the '
+         '32-bit wrap, remote ids at the extremes) are parsed frame by frame. The same strict parser also runs inside the device model on every execution of every other check.',
+         'trusts mc/frames.py (independent codec written from protocol.txt)', '4/C02'),
+ 'C04': ('exploration', 'exhaustive enumeration of operation sequences x device parameters, judged by a protocol monitor over the wire log',
+         'All sequences of <=2 (thorough 3) operations over the 8-operation alphabet on one connection x remote-id families x maxdata x chunkings x CLSE timing x push size x twins; '
+         'the monitor checks OPEN shape/fresh id, (local, announced remote) on every later packet, one OKAY per delivered WRTE and none otherwise, stop-and-wait, exactly one CLSE and '
+         'nothing after it; the device model stalls when an OKAY it is owed is missing.', 'trusts adbsim and mc/monitor.py; completion rules asserted on operations that succeed', '4/C04'),
+ 'C08': ('exploration', 'exhaustive enumeration of DATA compositions x WRTE cut sets (stateless DFS over free choice points)',
+         'File contents of 0..6 bytes: all 2^(n-1) DATA-record compositions x all sets of <=2 (thorough 3) cut positions of the sync byte stream (every header split at every offset), '
+         'all-1-byte chunking, destinations BytesIO / existing path / fresh path, callbacks none/counting/raising, both twins, read-fragment deviations, 64 KiB-boundary and MiB files; '
+         'destination bytes must equal the model file, the stream must be closed and drained.', 'trusts adbsim sync service; contents are seeded bytes', '4/C08'),
+ 'C09': ('exploration', 'exhaustive enumeration of listings / stat triples x WRTE cut sets',
+         'Listings of 0..3 entries from a boundary pool x all cut sets (<=2/3 for short names, every single cut for all), all-1-byte, 300 entries x WRTE sizes; stat: 13^3 boundary '
+         'triples x every cut position; both twins; return values must equal the model filesystem and the stream must be closed.', 'trusts adbsim sync service', '4/C09'),
+ 'C13': ('model_checking', 'exhaustive enumeration of API call sequences on the real object against a reference availability machine',
+         'Every sequence of <=3 (thorough 4) symbols over a 20-symbol alphabet (connect-ok, 4 kinds of failing connect, close, 10 operations, 4 empty-path operations) plus all length-5 '
+         '(thorough 6) sequences over 8 symbols, both twins, run on the real AdbDevice/AdbDeviceAsync; `available` must equal the reference machine after every step, guarded operations '
+         'must raise without writing a byte or creating a file, operations while connected must return ground truth.', 'trusts adbsim; no state abstraction is used to extend the bound', '4/C13'),
 }
 NOT_YET = 'check not built yet in this round (planned, see DESIGN.md section 4); not claimed until it runs'
 
